@@ -27,10 +27,12 @@ IsEv(e)  == InTrace /\ Trace[l].ev = e /\ l' = l + 1
 
 Others == <<believed, idle, held, intx, busy, nsets, nstmts, nfails>>
 
-(* JSON objects arrive as records: turn the vars record into a function over Names *)
-VarsOf(r) == [n \in Names |-> r[n]]
+(* JSON objects arrive as records: turn the vars record into a function over Names.  A trace may have been *)
+(* recorded with fewer names than the validating configuration knows: a name it does not mention is at its  *)
+(* default; a name the configuration does not know is refused.                                             *)
+VarsOf(r) == [n \in Names |-> IF n \in DOMAIN r THEN r[n] ELSE None]
 SettingOf(r) == [cs |-> r.cs, vars |-> VarsOf(r.vars)]
-HasExactlyNames(r) == DOMAIN r = Names
+HasExactlyNames(r) == DOMAIN r \subseteq Names
 
 TSetNames == /\ IsEv("setnames")
              /\ LET e == Trace[l] IN
